@@ -303,7 +303,9 @@ fn option_combo(k: usize) -> (&'static str, &'static str, &'static str) {
     (cfg::QUOTES[k % 4], cfg::CALL_PARENS[(k / 4) % 5], cfg::SPACE_AFTER[(k / 20) % 4])
 }
 
-const TEMPLATES: [&str; 14] = [
+const TEMPLATES: [&str; 16] = [
+    "foo:bar(argument_one).baz(argument_two).qux(argument_three).last(argument_four_is_long)\npromise(first_value).andThen(function(result) return result end).catch(warn_about_it)\n",
+    "print('a fairly long string argument that will not fit the narrow widths at all')\nlocal m = require('a.long.module.path.that.goes.on.and.on.and.on.for.a.while')\nsetup({ option_number_one = true, option_number_two = false, option_number_three = 3 })\n",
     "f 'a' 'b'\nf('x')('y')\nNew 'TextLabel' { Text = 'hi' }\nk { 1 } { 2 }\nlocal c = curry('a')('b')('c')\nlocal d = make { x = 1 } 'tail'\n",
     "local a = f('a')[1]\nlocal b = f({})[k]\nlocal c = f 'a'[1]\nlocal d = g {}['x']\nlocal e = obj:m('s')[i].n\ncache('x')[k] = v\ncache 'y'[k].z = v\nlocal h = f('a')[1]('b')[2]\n",
     "f('a')\nf(\"b\")\nf([[c]])\nf({})\nf({ 1, 2 })\nf 'd'\nf \"e\"\nf {}\nf { x = 1 }\n",
